@@ -7,7 +7,8 @@ P=$1; shift
 set -u
 M=/tmp/mh
 mkdir -p $M
-if [ ! -d $M/repo ]; then git -C /repo worktree add -q $M/repo HEAD; fi
+if [ ! -d $M/repo ]; then git -C /repo worktree add -q --detach $M/repo HEAD; fi
+git -C $M/repo checkout -q --detach $(git -C /repo rev-parse HEAD)
 git -C $M/repo checkout -q -- . && git -C $M/repo apply "$P" || { echo "patch does not apply"; exit 9; }
 rsync -a --delete --exclude target --exclude fuzz /verif/harness/ $M/harness/
 sed -i "s#path = \"/repo#path = \"$M/repo#g" $M/harness/Cargo.toml
